@@ -199,6 +199,9 @@ COHERENCE = {
     "C04": [("CoherenceTables", _TBL)],
     "C11": [("CoherenceTables", r"^coherence_c11_c12$")],
     "C12": [("CoherenceTables", r"^coherence_(c11_c12|slit|hmat)$")],
+    "C13": [("CoherenceSdt", r"^coherence_sdt")],
+    "C05": [("CoherenceWalk", r"^coherence_(c05_|judge_history|pending_origin|walk_equal_streams)")],
+    "C03": [("CoherenceWalk", r"^coherence_(c03_|domains_prefix_closed|walk_equal_streams)")],
     "C06": [("CoherenceAml", r"^coherence_(expect_is_norm|expect_gives_wf|C06|C06_every_case|size_bound_needed)$")],
     "C10": [("CoherenceAml", r"^coherence_C10")],
     "C15": [("CoherenceAml", r"^coherence_C15")],
